@@ -1,1 +1,94 @@
-(* placeholder *) From V Require Import base.Prelude.
+(** C16 - copy()/data() rebuild an equal, independent object; ids and notes are stable.
+
+    Proved here, on the operation model of an Acl (model/Ops.v, tied to the implementation by
+    the history correspondence K-ids): what every in-place transformation does to the
+    (identifier, note) of the ACL and of its entries, and what copy() does.  An entry is a leaf
+    of the object tree: an ACE or a remark, also inside the AceGroups that group_by builds.
+    Identifier 0 stands for "a new object".  [is_head] = a heading remark of the grouping:
+    group() merges a repeated heading remark (C15 owns that), every other entry is kept.
+
+    Not expressible in Gallina: aliasing between a copy and its source (checked on the
+    implementation by a reachability walk and mutate-then-observe histories), and equality /
+    identical data() of the copy for the classes below the ACL (checked object by object). *)
+From V Require Import base.Prelude model.Cfg model.AceText model.AclText model.Ops proofs.OpsProofs.
+From Coq Require Import Permutation.
+Local Open Scope N_scope.
+
+(** every in-place transformation: the ACL keeps identifier and note; every (identifier, note)
+    found afterwards was there before, or belongs to a new object carrying the note of an entry
+    that was there before (the split) *)
+Theorem C16_inplace : forall o a a',
+  inplace o = true -> Ops.step a o = Ok a' -> same_acl_id a a' /\ note_inherited a a'.
+Proof. exact inplace_ids. Qed.
+
+(** numeric/name switches, type, import with identifiers: nothing invented, every entry kept *)
+Theorem C16_switch : forall c' a a',
+  reinit c' a = Ok a' -> same_acl_id a a' /\ none_invented a a' /\ entries_kept (o_gby a) a a'.
+Proof. exact reinit_ids. Qed.
+
+Theorem C16_resequence : forall start step a a',
+  op_resequence start step a = Ok a' -> same_acl_id a a' /\ tags (o_tops a') = tags (o_tops a).
+Proof. exact resequence_ids. Qed.
+
+Theorem C16_sort : forall a a',
+  op_sort a = Ok a' -> same_acl_id a a' /\ Permutation (tags (o_tops a')) (tags (o_tops a)).
+Proof. exact sort_ids. Qed.
+
+Theorem C16_reverse : forall a,
+  same_acl_id a (op_reverse a) /\ Permutation (tags (o_tops (op_reverse a))) (tags (o_tops a)).
+Proof. exact reverse_ids. Qed.
+
+Theorem C16_group : forall gby a,
+  same_acl_id a (op_group gby a) /\ none_invented a (op_group gby a) /\ entries_kept gby a (op_group gby a).
+Proof. exact group_ids. Qed.
+
+Theorem C16_ungroup : forall a,
+  same_acl_id a (op_ungroup a) /\ tags (o_tops (op_ungroup a)) = tags (o_tops a).
+Proof. exact ungroup_ids. Qed.
+
+(** the split: an entry that is not split is the same object afterwards *)
+Theorem C16_split : forall a a',
+  op_ungroup_ports a = Ok a' ->
+  same_acl_id a a' /\ note_inherited a a'
+  /\ (forall l, In l (flat (o_tops a)) -> split_leaf (o_cfg a) l = Ok [l] -> is_head (o_gby a) l = false ->
+      In (leaf_tag l) (tags (o_tops a'))).
+Proof. exact ungroup_ports_ids. Qed.
+
+Theorem C16_split_entry : forall c l r,
+  split_leaf c l = Ok r ->
+  r = [l] \/ Forall (fun x => leaf_id x = 0 /\ leaf_note x = leaf_note l /\ forall gby, is_head gby x = false) r.
+Proof. exact split_leaf_ids. Qed.
+
+(** platform: for NX-OS the split, then a conversion that keeps every object *)
+Theorem C16_platform : forall p a a',
+  op_platform p a = Ok a' ->
+  same_acl_id a a' /\
+  exists a1, (match p with Nxos => op_ungroup_ports a = Ok a1 | _ => a1 = a end)
+             /\ tags (o_tops a') = tags (o_tops a1).
+Proof. exact platform_ids. Qed.
+
+(** copy(): a new object at every level, every note carried over, nothing else *)
+Theorem C16_copy : forall a a',
+  op_copy a = Ok a' ->
+  o_id a' = 0 /\ o_note a' = o_note a
+  /\ Forall (fun tg => fst tg = 0) (tags (o_tops a'))
+  /\ (forall n, In n (map snd (tags (o_tops a'))) -> In n (map snd (tags (o_tops a))))
+  /\ (forall l, In l (flat (o_tops a)) -> is_head (o_gby a) l = false -> In (0, leaf_note l) (tags (o_tops a'))).
+Proof. exact copy_ids. Qed.
+
+(** non-vacuity: a labelled, annotated ACL; grouping, a switch, the conversion to NX-OS (one
+    entry is split in two) and a copy succeed, and the tags are what the theorems say *)
+Local Open Scope string_scope.
+Definition C16_demo : res (list (list (N * N))) :=
+  do a0 <- init_acl (mkCfg Ios false false false 16%nat) "A"
+             ["remark = G1"; "10 permit tcp any eq 1 2 any eq www"; "remark plain"; "20 deny udp any any range 5 6"];
+  let a1 := note_all (snd (relabel 1 a0)) in
+  let a2 := op_group "= " a1 in
+  do a3 <- op_port_nr true a2;
+  do a4 <- op_platform Nxos a3;
+  do a5 <- op_copy a4;
+  Ok [tags (o_tops a1); tags (o_tops a3); tags (o_tops a4); tags (o_tops a5)].
+Example C16_nonvacuous :
+  C16_demo = Ok [[(2, 2); (3, 3); (4, 4); (5, 5)]; [(2, 2); (3, 3); (4, 4); (5, 5)];
+                 [(2, 2); (0, 3); (0, 3); (4, 4); (5, 5)]; [(0, 2); (0, 3); (0, 3); (0, 4); (0, 5)]]%N.
+Proof. vm_compute. reflexivity. Qed.
